@@ -111,7 +111,7 @@ func TestVerifC17Child(t *testing.T) {
 				switch x := rng.Intn(100); {
 				case x < 20:
 					filler = 100 + rng.Intn(2000)
-				case big && x < 30:
+				case big && x < 55:
 					filler = 15000 + rng.Intn(15000)
 				}
 				failing := rng.Intn(100) < 15
